@@ -33,6 +33,10 @@ pub struct FaultCase {
 	/// the CA hands the challenges out as already `processing` (validation left in flight by an earlier attempt)
 	#[serde(default)]
 	pub processing: bool,
+	/// the certificate also lists a recorder hook whose type list mixes storage and post-operation events
+	/// (file-post-create, file-post-edit, post-operation): it runs for each of them
+	#[serde(default)]
+	pub mixed_hooks: bool,
 }
 
 pub struct Attempt {
@@ -212,6 +216,15 @@ fn run_case_in(case: &FaultCase, acmed: &std::path::Path, dir: &std::path::Path,
 		}
 	}
 	let mut cert_hooks = vec!["rec-http-01", "rec-http-01-clean", "rec-dns-01", "rec-dns-01-clean", "rec-post"];
+	if case.mixed_hooks {
+		hooks.push(json!({
+			"name": "mixed-post",
+			"type": ["file-post-create", "file-post-edit", "post-operation"],
+			"cmd": build::hookrec_bin().display().to_string(),
+			"args": [coll.sock.display().to_string(), format!("mixed-post:{{{{ env.{} | default('acct') }}}}", bb::CERT_ENV), "exit:0", "--", "is_success={{ is_success }}", "file_name={{ file_name }}"],
+		}));
+		cert_hooks.push("mixed-post");
+	}
 	let mut acct = json!({"name": "a1", "contacts": [{"mailto": "admin@fault.test"}], "env": {bb::ACCT_ENV: "a1"}});
 	if case.file_hooks {
 		let fh = ["rec-file-pre-create", "rec-file-post-create", "rec-file-pre-edit", "rec-file-post-edit"];
